@@ -7,6 +7,7 @@
 From Coq Require Import ZArith List Bool Lia.
 Import ListNotations.
 Require Import SV.Common SV.C11.Base SV.C11.Utf8 SV.C11.Gen_events SV.C11.Envelope SV.C11.Tick SV.C11.Notify.
+Require Import SV.C11.Pipe SV.C11.PipeProofs.
 Require Import SV.C11.Capture SV.C11.Listeners SV.C11.Register SV.C11.CaptureProofs SV.C11.ListenersProofs SV.C11.RegisterProofs.
 Require Import SV.C11.Routing SV.C11.Utf8Proofs SV.C11.EnvelopeProofs SV.C11.TickProofs SV.C11.NotifyProofs SV.C11.RoutingProofs.
 Open Scope Z_scope.
@@ -389,3 +390,11 @@ Theorem c11_finish_flush_order : forall p held es tq ee now,
     (forall c a, In (c, a) out -> exists from bo, a = AState (p_name p) (p_group p) from (extra_values c bo ee (p_pid p))).
 Proof. exact finish_flush_order. Qed.
 Print Assumptions c11_finish_flush_order.
+
+(* ---------------------------------------------------------------- the listener's stdin pipe *)
+
+(* whatever room the pipe has when an envelope is written (none at all included) and
+   whenever it is drained: received ++ still buffered = the envelopes written, once each, in order *)
+Theorem c11_pipe_exactly_once : forall l, pi_got (pi_run l) ++ pi_buf (pi_run l) = written l.
+Proof. exact pipe_exactly_once. Qed.
+Print Assumptions c11_pipe_exactly_once.
